@@ -14,7 +14,12 @@ from spacepackets.cfdp.pdu.keep_alive import KeepAlivePdu
 from spacepackets.cfdp.pdu.file_data import FileDataPdu, FileDataParams, SegmentMetadata
 from spacepackets.cfdp.tlv.tlv import CfdpTlv, EntityIdTlv, FileStoreResponseTlv
 from spacepackets.cfdp.tlv.defs import FilestoreResponseStatusCode
-from spacepackets.cfdp.defs import ConditionCode
+from spacepackets.cfdp.defs import ConditionCode, DeliveryCode, FileStatus, ChecksumType
+from spacepackets.cfdp.pdu.ack import TransactionStatus
+from spacepackets.cfdp.pdu.file_directive import DirectiveType
+from spacepackets.cfdp.pdu.prompt import ResponseRequired
+from spacepackets.cfdp.pdu.file_data import RecordContinuationState
+from spacepackets.cfdp.tlv.defs import TlvType, FilestoreActionCode
 from spacepackets.cfdp.lv import CfdpLv
 
 KINDS = ["eof", "finished", "ack", "metadata", "nak", "prompt", "keepalive", "filedata"]
@@ -58,7 +63,7 @@ def sym_fs_response(ctx, name, shape1=(1,), shape2=(), m=0):
     action = full >> 4
     n1, n2 = ctx.text(name + "_n1", shape1), ctx.text(name + "_n2", shape2)
     msg = ctx.octets(name + "_msg", m)
-    tlv = FileStoreResponseTlv(action, full, n1, n2, CfdpLv(msg))
+    tlv = FileStoreResponseTlv(en(ctx, FilestoreActionCode, action), en(ctx, FilestoreResponseStatusCode, full), n1, n2, CfdpLv(msg))
     snp = member(action, SNP_ACTIONS)
     b1, b2 = items_of(n1.encode()), items_of(n2.encode())
     # the reference layout depends on whether the action carries a second name: fork here, once
@@ -92,7 +97,7 @@ def build(ctx, kind, cfg, var=None):
         cks = ctx.octets("checksum", 4)
         size = ctx.int("file_size", 0, fmax)
         flt, flref, flraw = sym_entity_tlv(ctx, "fault_loc", fl) if fl else (None, [], None)
-        pdu = EofPdu(conf, cks, size, flt, cond)
+        pdu = EofPdu(conf, cks, size, flt, en(ctx, ConditionCode, cond))
         body = [4, cond << 4] + items_of(cks) + be(size, n) + flref
 
         def check(u):
@@ -112,7 +117,7 @@ def build(ctx, kind, cfg, var=None):
             rref += r
             rinfo.append(info)
         flt, flref, flraw = sym_entity_tlv(ctx, "fault_loc", fl) if fl else (None, [], None)
-        params = FinishedParams(cond, deliv, fstat, resps, flt)
+        params = FinishedParams(en(ctx, ConditionCode, cond), en(ctx, DeliveryCode, deliv), en(ctx, FileStatus, fstat), resps, flt)
         pdu = FinishedPdu(conf, params)
         body = [5, (cond << 4) | (deliv << 2) | fstat] + rref + flref
 
@@ -132,7 +137,7 @@ def build(ctx, kind, cfg, var=None):
         acked = var.get("acked", 4)
         cond = sym_cond(ctx)
         ts = ctx.int("transaction_status", 0, 3)
-        pdu = AckPdu(conf, acked, cond, ts)
+        pdu = AckPdu(conf, en(ctx, DirectiveType, acked), en(ctx, ConditionCode, cond), en(ctx, TransactionStatus, ts))
         body = [6, (acked << 4) | (1 if acked == 5 else 0), (cond << 4) | ts]
 
         def check(u):
@@ -155,10 +160,10 @@ def build(ctx, kind, cfg, var=None):
                 t = ctx.int("opt%d_type" % i, 0, 6)
                 ctx.assume(member(t, TLV_TYPES))
                 val = ctx.octets("opt%d_val" % i, var.get("optlen", i % 3))
-                opts.append(CfdpTlv(t, val))
+                opts.append(CfdpTlv(en(ctx, TlvType, t), val))
                 oref += ref_tlv(t, items_of(val))
                 oinfo.append((t, val))
-        params = MetadataParams(closure != 0, ck, size, src, dst)
+        params = MetadataParams(closure != 0, en(ctx, ChecksumType, ck), size, src, dst)
         pdu = MetadataPdu(conf, params, opts)
         b1 = [] if src is None else items_of(src.encode())
         b2 = [] if dst is None else items_of(dst.encode())
@@ -204,7 +209,7 @@ def build(ctx, kind, cfg, var=None):
         return Built(kind, pdu, assemble(ctx, kind, v, body), check, conf, v, before, dict(vals=dict(start=start, end=end, segs=segs)))
     if kind == "prompt":
         rr = ctx.flag("response_required")
-        pdu = PromptPdu(conf, rr)
+        pdu = PromptPdu(conf, en(ctx, ResponseRequired, rr))
         return Built(kind, pdu, assemble(ctx, kind, v, [9, rr << 7]), lambda u: u.response_required == rr, conf, v, before,
                      dict(vals=dict(rr=rr)))
     if kind == "keepalive":
@@ -220,7 +225,7 @@ def build(ctx, kind, cfg, var=None):
         if nm is not None:
             state = ctx.int("rec_cont_state", 0, 3)
             meta = ctx.octets("seg_meta", nm)
-            sm = SegmentMetadata(state, meta)
+            sm = SegmentMetadata(en(ctx, RecordContinuationState, state), meta)
             mref = [(state << 6) | nm] + items_of(meta)
         params = FileDataParams(data, off, sm)
         pdu = FileDataPdu(conf, params)
